@@ -1,6 +1,8 @@
 package main
 
 import (
+	"bytes"
+	"sort"
 	"strings"
 )
 
@@ -258,43 +260,110 @@ func init() {
 		}
 		for i := 0; i < nm; i++ {
 			g := genMsg(r, r.Chance(1, 8))
-			mtiVal := []byte("0100")
-			ops := []*Sx{op("mti", X(mtiVal))}
+			var ids []int
 			for _, id := range g.ids {
 				if r.Chance(1, 4) {
 					continue
 				}
-				ops = append(ops, op("setval", I(id), genValue(r, g.nodes[id])))
+				ids = append(ids, id)
 			}
-			ops = append(ops, op("pack"), op("get"), op("bitmap"))
-			res := func() []string {
-				defer func() { recover() }()
-				return runMsgOps(g.term, ops)
-			}()
-			emit(L(A("msg"), g.term, L(ops...)))
-			if res == nil {
+			emitMsgBattery(r, g, ids, emit)
+		}
+		// the shipped specifications (G6), restricted to the fields of the model's grammar: random subsets of their data
+		// elements, the same battery
+		ns := 60
+		if tier == "thorough" {
+			ns = 1500
+		}
+		for _, st := range shippedTerms() {
+			g := &gmsg{term: st.term, nodes: map[int]*gnode{}}
+			for _, f := range st.term.Args()[2].List {
+				if n := nodeFromTerm(f.List[1]); n != nil {
+					g.nodes[f.List[0].Int()] = n
+					g.ids = append(g.ids, f.List[0].Int())
+				}
+			}
+			if len(g.ids) == 0 {
 				continue
 			}
-			packRes := res[len(res)-3]
-			if !strings.HasPrefix(packRes, "ok ") {
-				continue
-			}
-			packed := A(packRes[3:]).Hex()
-			// unpack into a fresh message, observe, re-pack
-			emit(L(A("msg"), g.term, L(op("unpack", X(packed)), op("get"), op("pack"))))
-			// unpack into the populated message (prior state must not matter), then unset and re-pack
-			ops2 := append(append([]*Sx{}, ops[:len(ops)-3]...), op("unpack", X(packed)), op("get"), op("pack"))
-			if len(g.ids) > 0 {
-				ops2 = append(ops2, op("unset", I(g.ids[r.Intn(len(g.ids))])), op("get"), op("pack"))
-			}
-			emit(L(A("msg"), g.term, L(ops2...)))
-			// mutants and truncations
-			for k := 0; k < 4; k++ {
-				emit(L(A("msg"), g.term, L(op("unpack", X(mutate(r, packed))), op("get"), op("pack"))))
-			}
-			if len(packed) > 0 {
-				emit(L(A("msg"), g.term, L(op("unpack", X(packed[:r.Intn(len(packed))])), op("get"))))
+			for i := 0; i < ns; i++ {
+				var ids []int
+				k := 1 + r.Intn(6)
+				for j := 0; j < k; j++ {
+					ids = append(ids, g.ids[r.Intn(len(g.ids))])
+				}
+				sort.Ints(ids)
+				var uniq []int
+				for j, id := range ids {
+					if j == 0 || id != ids[j-1] {
+						uniq = append(uniq, id)
+					}
+				}
+				emitMsgBattery(r, g, uniq, emit)
 			}
 		}
+	}
+}
+
+func emitMsgBattery(r *Rng, g *gmsg, ids []int, emit func(*Sx)) {
+	mtiVal := []byte("0100")
+	ops := []*Sx{op("mti", X(mtiVal))}
+	for _, id := range ids {
+		ops = append(ops, op("setval", I(id), genValue(r, g.nodes[id])))
+	}
+	ops = append(ops, op("pack"), op("get"), op("bitmap"))
+	res := func() []string {
+		defer func() { recover() }()
+		return runMsgOps(g.term, ops)
+	}()
+	emit(L(A("msg"), g.term, L(ops...)))
+	if res == nil {
+		return
+	}
+	packRes := res[len(res)-3]
+	if !strings.HasPrefix(packRes, "ok ") {
+		return
+	}
+	packed := A(packRes[3:]).Hex()
+	// unpack into a fresh message, observe, re-pack
+	emit(L(A("msg"), g.term, L(op("unpack", X(packed)), op("get"), op("pack"))))
+	// unpack into the populated message (prior state must not matter), then unset and re-pack
+	ops2 := append(append([]*Sx{}, ops[:len(ops)-3]...), op("unpack", X(packed)), op("get"), op("pack"))
+	if len(g.ids) > 0 {
+		ops2 = append(ops2, op("unset", I(g.ids[r.Intn(len(g.ids))])), op("get"), op("pack"))
+	}
+	emit(L(A("msg"), g.term, L(ops2...)))
+	// a fixed-length numeric element whose first digit is zero (the decoded integer is shorter than the field)
+	for _, o := range ops {
+		if o.Head() != "setval" {
+			continue
+		}
+		n := g.nodes[o.List[1].Int()]
+		if n == nil || n.comp || n.kind != "Numeric" || !n.fixed || (n.enc != "ASCII" && n.enc != "EBCDIC") || o.List[2].Head() != "N" {
+			continue
+		}
+		digits := []byte(o.List[2].List[1].Atom)
+		if n.enc == "EBCDIC" {
+			for i := range digits {
+				digits[i] = digits[i] - '0' + 0xf0
+			}
+		}
+		if len(digits) == n.L && len(digits) > 1 {
+			if idx := bytes.Index(packed, digits); idx >= 0 {
+				z := append([]byte(nil), packed...)
+				z[idx] = z[idx]&0xf0 | 0
+				if n.enc == "ASCII" {
+					z[idx] = '0'
+				}
+				emit(L(A("msg"), g.term, L(op("unpack", X(z)), op("get"), op("pack"))))
+			}
+		}
+	}
+	// mutants and truncations
+	for k := 0; k < 4; k++ {
+		emit(L(A("msg"), g.term, L(op("unpack", X(mutate(r, packed))), op("get"), op("pack"))))
+	}
+	if len(packed) > 0 {
+		emit(L(A("msg"), g.term, L(op("unpack", X(packed[:r.Intn(len(packed))])), op("get"))))
 	}
 }
